@@ -21,6 +21,8 @@ def scenarios(tier, seed):
     for sc in scs:       # longitude / latitude as two more instance variables in a third of the runs (values only where the particle lives)
         if rl.random() < 0.34:
             sc["lonlat_out"] = True
+        if rl.random() < 0.3:          # a state variable that is not configured for output must not appear in the file
+            sc["out_drop"] = rl.sample(["Z", "age", "farm"], rl.choice([1, 1, 2]))
     return scs
 
 
